@@ -536,6 +536,28 @@ impl Machine {
                         None => obs.none = true,
                     }
                 }
+                // ---- arrivals from generators / deserialisers (seams S1-S3) ------------------------
+                "u.arrive" => {
+                    let x: Option<BigUint> = match f {
+                        0 => {
+                            use num_bigint::RandBigInt;
+                            let mut r = crate::seams::SimRng::from_words(&s.list32("v"));
+                            Some(r.gen_biguint(k as u64))
+                        }
+                        1 => {
+                            let d: Vec<u64> = s.list("v").to_vec();
+                            let mut toks = vec![crate::scn_c17::Tok::Seq(Some(d.len()))];
+                            toks.extend(d.iter().map(|&x| crate::scn_c17::Tok::U32(x as u32)));
+                            toks.push(crate::scn_c17::Tok::End);
+                            crate::scn_c17::de_tokens::<BigUint>(toks, crate::scn_c17::HintMode::Exact, None).0.ok()
+                        }
+                        _ => arrive_std_u(f, k, &s.list8("v"), obs),
+                    };
+                    match x {
+                        Some(x) => self.put_u(d, x, obs),
+                        None => obs.none = true,
+                    }
+                }
                 // ---- binary operators, all four forms -------------------------------------------
                 "u.bin" => {
                     macro_rules! forms {
@@ -955,6 +977,28 @@ impl Machine {
                     };
                     self.put_i(d, x, obs);
                 }
+                "i.arrive" => {
+                    let x: Option<BigInt> = match f {
+                        0 => {
+                            use num_bigint::RandBigInt;
+                            let mut r = crate::seams::SimRng::from_words(&s.list32("v"));
+                            Some(r.gen_bigint(k as u64))
+                        }
+                        1 => {
+                            let dd: Vec<u64> = s.list("v").to_vec();
+                            let mut toks = vec![crate::scn_c17::Tok::Tuple(2), crate::scn_c17::Tok::I8(s.int("sg").clamp(-1, 1) as i8), crate::scn_c17::Tok::Seq(Some(dd.len()))];
+                            toks.extend(dd.iter().map(|&x| crate::scn_c17::Tok::U32(x as u32)));
+                            toks.push(crate::scn_c17::Tok::End);
+                            toks.push(crate::scn_c17::Tok::End);
+                            crate::scn_c17::de_tokens::<BigInt>(toks, crate::scn_c17::HintMode::Exact, None).0.ok()
+                        }
+                        _ => arrive_std_i(f, k, &s.list8("v"), obs),
+                    };
+                    match x {
+                        Some(x) => self.put_i(d, x, obs),
+                        None => obs.none = true,
+                    }
+                }
                 "i.bin" => {
                     macro_rules! forms {
                         ($opx:tt) => {{
@@ -1358,4 +1402,55 @@ pub fn reset_written(m: &mut Machine, s: &Step) {
             m.i[s.us("a") % NI] = BigInt::default();
         }
     }
+}
+
+// Arrivals that exist only with the std-only optional features (arbitrary, quickcheck).
+#[cfg(feature = "std")]
+fn arrive_std_u(f: i128, k: i128, bytes: &[u8], _obs: &mut Obs) -> Option<BigUint> {
+    match f {
+        2 => {
+            let mut u = arbitrary::Unstructured::new(bytes);
+            <BigUint as arbitrary::Arbitrary>::arbitrary(&mut u).ok()
+        }
+        3 => <BigUint as arbitrary::Arbitrary>::arbitrary_take_rest(arbitrary::Unstructured::new(bytes)).ok(),
+        4 => {
+            let mut g = quickcheck::Gen::from_size_and_seed((k as usize % 40) + 1, bytes.len() as u64 * 7919 + k as u64);
+            Some(<BigUint as quickcheck::Arbitrary>::arbitrary(&mut g))
+        }
+        _ => {
+            // a shrink candidate of an arbitrary value
+            let mut g = quickcheck::Gen::from_size_and_seed((k as usize % 40) + 1, bytes.len() as u64 * 104729 + k as u64);
+            let x = <BigUint as quickcheck::Arbitrary>::arbitrary(&mut g);
+            quickcheck::Arbitrary::shrink(&x).nth(bytes.len() % 7)
+        }
+    }
+}
+#[cfg(feature = "std")]
+fn arrive_std_i(f: i128, k: i128, bytes: &[u8], _obs: &mut Obs) -> Option<BigInt> {
+    match f {
+        2 => {
+            let mut u = arbitrary::Unstructured::new(bytes);
+            <BigInt as arbitrary::Arbitrary>::arbitrary(&mut u).ok()
+        }
+        3 => <BigInt as arbitrary::Arbitrary>::arbitrary_take_rest(arbitrary::Unstructured::new(bytes)).ok(),
+        4 => {
+            let mut g = quickcheck::Gen::from_size_and_seed((k as usize % 40) + 1, bytes.len() as u64 * 7919 + k as u64);
+            Some(<BigInt as quickcheck::Arbitrary>::arbitrary(&mut g))
+        }
+        _ => {
+            let mut g = quickcheck::Gen::from_size_and_seed((k as usize % 40) + 1, bytes.len() as u64 * 104729 + k as u64);
+            let x = <BigInt as quickcheck::Arbitrary>::arbitrary(&mut g);
+            quickcheck::Arbitrary::shrink(&x).nth(bytes.len() % 7)
+        }
+    }
+}
+#[cfg(not(feature = "std"))]
+fn arrive_std_u(_f: i128, _k: i128, _bytes: &[u8], obs: &mut Obs) -> Option<BigUint> {
+    obs.skipped = true;
+    None
+}
+#[cfg(not(feature = "std"))]
+fn arrive_std_i(_f: i128, _k: i128, _bytes: &[u8], obs: &mut Obs) -> Option<BigInt> {
+    obs.skipped = true;
+    None
 }
